@@ -60,7 +60,7 @@ Instances ==
   \cup {Inst("default_arity", d, "default", s, p, FALSE) : d \in {"EnumString", "Display"}, s \in {"unit", "tuple2", "named2", "tuple0"}, p \in {"first", "last"}}
   \cup {Inst("transparent_arity", d, "transparent", s, p, FALSE) : d \in {"Display", "AsRefStr", "IntoStaticStr"}, s \in {"unit", "tuple2", "named2", "tuple0"}, p \in {"first", "last"}}
   \* placeholders on a unit variant; an empty {} on a tuple variant
-  \cup {Inst("unit_placeholder", "Display", "to_string", s, p, FALSE) : s \in {"index", "name", "spec"}, p \in {"first", "last"}}
+  \cup {Inst("unit_placeholder", "Display", "to_string", s, p, FALSE) : s \in {"index", "name", "spec", "via_serialize", "via_prefix"}, p \in {"first", "last"}}
   \cup {Inst("empty_placeholder", "Display", "to_string", "tuple1", p, FALSE) : p \in {"first", "last"}}
   \* an unknown serialize_all style
   \cup {Inst("unknown_style", d, "serialize_all", s, "", FALSE) : d \in UsesEnumKw("serialize_all"), s \in {"Snake_Case", "", "kebabcase"}}
